@@ -62,16 +62,25 @@ def gen_points(rng, cid):
     xk, yk = rng.choice(ENVS)
     days = rng.randint(1, 4)
     ntubes = rng.randint(1, 3)
-    level = rng.choice(["zero", "finite", "finite", "finite", "inf", "mixed"])
+    level = rng.choice(["zero", "finite", "finite", "finite", "inf", "mixed", "triple", "triple"])
     tubes = []
     for _ in range(ntubes):
         ne, nq = rng.randint(1, 4), rng.randint(1, 6)
         def dmg():
             base = {"zero": 0.7, "finite": 10 ** rng.uniform(-5.5, -1.5), "inf": 10 ** rng.uniform(-9, -7.5),
-                    "mixed": 10 ** rng.uniform(-9, -1)}[level]
+                    "mixed": 10 ** rng.uniform(-9, -1), "triple": 1e-6}[level]
             return float(np.float32(base * rng.uniform(0.2, 1.0)))
         Dc = [[[dmg() for _ in range(nq)] for _ in range(ne)] for _ in range(days)]
         Df = [[[dmg() * rng.choice([0.0, 1.0, 1.0]) for _ in range(nq)] for _ in range(ne)] for _ in range(days)]
+        if level == "triple":
+            # a creep-heavy, a fatigue-heavy and a mixed point that neither dominates in both damages but that the
+            # interaction envelope makes the controlling one; in every order
+            base = 10 ** rng.uniform(-4.5, -2.5)
+            pts = [(base, base * 1e-3), (base * 1e-3, base), (0.8 * base, 0.8 * base)]
+            rng.shuffle(pts)
+            ne, nq = 1, 3
+            Dc = [[[float(np.float32(p[0] * (1 + 0.01 * d))) for p in pts]] for d in range(days)]
+            Df = [[[float(np.float32(p[1] * (1 + 0.01 * d))) for p in pts]] for d in range(days)]
         tubes.append({"Dc": Dc, "Df": Df})
     mode = rng.choice(["lump", "lump", "last"])
     return {"id": cid, "what": "points", "material": {"kind": "envelope", "xk": hx(xk), "yk": hx(yk)},
